@@ -134,6 +134,10 @@ type w3World struct {
 	cntSeq      int
 	rng         *rand.Rand // seeded: random signer subsets
 	nRandom     int
+	thin        bool // quick tier: the repeat and cross-replay passes skip the peer sets
+	snapLast    w3Snap
+	snapHeight  uint32
+	snapOK      bool
 }
 
 func (w *w3World) princ(name string) *w3Princ {
@@ -176,7 +180,13 @@ func w3NewChain(t testing.TB, n int) *w3World {
 	w.neo = e.NativeHash(t, nativenames.Neo)
 	w.mgmt = e.NativeHash(t, nativenames.Management)
 	w.roles = e.NativeHash(t, nativenames.Designation)
-	for i := 0; i < n; i++ {
+	// the two key lists have at least three members on every chain, so that
+	// "another member of the same list" exists
+	nl := n
+	if nl < 3 {
+		nl = 3
+	}
+	for i := 0; i < nl; i++ {
 		w.lk = append(w.lk, w3Key("neofs-list", i))
 		w.rk = append(w.rk, w3Key("inner-ring", i))
 	}
@@ -184,16 +194,23 @@ func w3NewChain(t testing.TB, n int) *w3World {
 
 	w.addPrinc(&w3Princ{Name: "committee", Hash: committee.ScriptHash(), S: committee})
 	w.addPrinc(w3Multi("alpha", w3AlphaM(n), w.ck))
-	w.addPrinc(w3Multi("ir-committee", w3MajM(n), w.rk))
-	w.addPrinc(w3Multi("ir-alpha", w3AlphaM(n), w.rk))
-	w.addPrinc(w3Multi("neofs-alpha", w3AlphaM(n), w.lk))
-	w.addPrinc(w3Multi("neofs-majority", w3MajM(n), w.lk))
+	w.addPrinc(w3Multi("ir-committee", w3MajM(nl), w.rk))
+	w.addPrinc(w3Multi("ir-alpha", w3AlphaM(nl), w.rk))
+	w.addPrinc(w3Multi("neofs-alpha", w3AlphaM(nl), w.lk))
+	w.addPrinc(w3Multi("neofs-majority", w3MajM(nl), w.lk))
 	w.addPrinc(w3Single("member0", w.ck[0]))
 	if n > 1 {
 		w.addPrinc(w3Single("member1", w.ck[1]))
 	}
 	w.addPrinc(w3Single("ir-member", w.rk[0]))
 	w.addPrinc(w3Single("neofs-member", w.lk[0]))
+	for i := 1; i < nl; i++ {
+		w.addPrinc(w3Single(fmt.Sprintf("ir-member%d", i+1), w.rk[i]))
+		w.addPrinc(w3Single(fmt.Sprintf("neofs-member%d", i+1), w.lk[i]))
+	}
+	for i := 2; i < n; i++ {
+		w.addPrinc(w3Single(fmt.Sprintf("member%d", i), w.ck[i]))
+	}
 	for _, nm := range []string{"stranger", "O", "A", "U", "P", "cand", "cand2", "CO", "N0", "N1", "N2", "N3", "deployer2"} {
 		w.addPrinc(w3Single(nm, w3Key(nm, 0)))
 	}
@@ -527,6 +544,17 @@ type w3Snap struct {
 }
 
 func (w *w3World) snap() w3Snap {
+	// the chain only changes by adding blocks: the snapshot taken after the
+	// previous case is still the state before this one
+	if w.snapOK && w.snapHeight == w.BC.BlockHeight() {
+		return w.snapLast
+	}
+	s := w.snapNow()
+	w.snapLast, w.snapHeight, w.snapOK = s, w.BC.BlockHeight(), true
+	return s
+}
+
+func (w *w3World) snapNow() w3Snap {
 	s := w3Snap{store: map[string]map[string]string{}}
 	for inst, h := range w.H {
 		s.store[inst] = w.StorageDump(h)
@@ -629,6 +657,7 @@ type w3Call struct {
 	ViaData  any
 	Note     string
 	NotaryOf bool
+	thinSets bool // repeat / cross-replay call: fewer signer sets in the quick tier
 	// Refresh re-reads the state-dependent facts (NNS owner/admin) when the
 	// same arguments are sent again later.
 	Refresh func(w *w3World, c *w3Call)
@@ -779,6 +808,21 @@ func (w *w3World) signerSets(call *w3Call, rng *rand.Rand, nRandom int) []w3SigS
 	add("neofs-list-majority", w.princ("neofs-majority"))
 	add("ir-member", w.princ("ir-member"))
 	add("neofs-list-member", w.princ("neofs-member"))
+	// another member of the same list alone, and all members but the first
+	rest := func(prefix string, from, n int) []*w3Princ {
+		var ps []*w3Princ
+		for i := from; i < n; i++ {
+			ps = append(ps, w.princ(fmt.Sprintf("%s%d", prefix, i)))
+		}
+		return ps
+	}
+	add("other-ir-member", w.princ("ir-member2"))
+	add("all-ir-members-but-the-first", rest("ir-member", 2, len(w.rk)+1)...)
+	add("other-neofs-list-member", w.princ("neofs-member2"))
+	add("all-neofs-list-members-but-the-first", rest("neofs-member", 2, len(w.lk)+1)...)
+	if w.N > 2 {
+		add("all-committee-members-but-the-first", rest("member", 1, w.N)...)
+	}
 	sets = append(sets, w3SigSet{Name: "alphabet+committee signing with scope None", Unscoped: w3Dedup([]*w3Princ{w.princ("alpha"), w.princ("committee")})})
 	var named []*w3Princ
 	for _, p := range append(append([]*w3Princ{}, call.Princ...), call.Owner, call.Admin) {
@@ -792,6 +836,25 @@ func (w *w3World) signerSets(call *w3Call, rng *rand.Rand, nRandom int) []w3SigS
 		add("alphabet+named:"+p.Name, w.princ("alpha"), p)
 		add("committee-majority+named:"+p.Name, w.princ("committee"), p)
 	}
+	// principals that are legitimate ELSEWHERE (another node of the netmap,
+	// another container owner, another NNS owner, another candidate, ...):
+	// alone and together with the Alphabet
+	if !w.thin || !call.thinSets {
+		isNamed := map[util.Uint160]bool{}
+		for _, p := range named {
+			isNamed[p.Hash] = true
+		}
+		for _, nm := range []string{"N0", "N1", "O", "cand", "CO", "U"} {
+			p := w.princ(nm)
+			if isNamed[p.Hash] {
+				continue
+			}
+			add("peer:"+nm, p)
+			if nm == "N0" || nm == "N1" || !w.thin {
+				add("alphabet+peer:"+nm, w.princ("alpha"), p)
+			}
+		}
+	}
 	if len(named) > 2 {
 		for i := range named {
 			for j := i + 1; j < len(named); j++ {
@@ -804,7 +867,7 @@ func (w *w3World) signerSets(call *w3Call, rng *rand.Rand, nRandom int) []w3SigS
 		add("alphabet+named:all", append([]*w3Princ{w.princ("alpha")}, named...)...)
 	}
 	// seeded random subsets of every account the harness can sign for
-	if rng != nil {
+	if rng != nil && !(w.thin && call.thinSets) {
 		var uni []string
 		for nm, p := range w.P {
 			if p.S != nil {
@@ -1177,6 +1240,7 @@ func w3DefaultArg(w *w3World, p manifest.Parameter) any {
 func (w *w3World) runSets(o *w3Out, v *w3Variant, req *w3Req, next func() *w3Call) *w3Call {
 	probe := next()
 	w.fillPrinc(v, probe)
+	probe.thinSets = v.Repeat
 	sets := w.signerSets(probe, w.rng, w.nRandom)
 	type item struct {
 		s   w3SigSet
@@ -1478,7 +1542,7 @@ func (w *w3World) crossReplay(o *w3Out, table map[string]*w3Req, oks []w3OKCall)
 				if mode != "" {
 					lbl += ", " + mode
 				}
-				bv := &w3Variant{C: A.C, M: mb.Name, Arity: len(pb), Label: lbl, Repeat: true}
+				bv := &w3Variant{C: A.C, M: mb.Name, Arity: len(pb), Label: lbl, Repeat: true, Boundary: w.thin}
 				seq++
 				sq := seq
 				mk := func() *w3Call {
@@ -1652,8 +1716,10 @@ func TestC03(t *testing.T) {
 		w := w3NewChain(t, n)
 		w.rng = Rng(int64(3000 + n))
 		w.nRandom = 3
+		w.thin = true
 		if Tier() == "thorough" {
 			w.nRandom = 10
+			w.thin = false
 		}
 		w.setup()
 		o := &w3Out{st: st, pool: NewPool("b"), ctxNames: map[string]string{}, argNames: map[string]string{},
